@@ -514,6 +514,7 @@ impl Prop for Exchange {
                     let calls = match build(&gc2) {
                         Built::U(af, labels) => Exchange::query_generic(&af, &labels, &g, &fams, sem, q, enc, a, cert, &fake2),
                         Built::S(af, labels) => Exchange::query_generic(&af, &labels, &g, &fams, sem, q, enc, a, cert, &fake2),
+                        Built::C(af, labels) => Exchange::query_generic(&af, &labels, &g, &fams, sem, q, enc, a, cert, &fake2),
                     }?;
                     Ok(json!(calls))
                 })?;
